@@ -128,6 +128,28 @@ def mesh_cases(draw, max_cells=8, max_total=512, max_nodes=512, min_cells=1):
     return {"grid": gspec, "chunks": chunks, "format": draw(st.sampled_from(FORMATS))}
 
 
+@st.composite
+def long_axis_cases(draw, max_cells=200):
+    """one long axis cut into many chunks (after missed seed C17-5: chunk sizes computed with floating-point
+    arithmetic lost a cell for pairs such as 15 cells / 11 chunks - none below 15 cells)"""
+    n = draw(st.one_of(st.integers(9, max_cells), st.integers(9, 64)))
+    c = draw(st.one_of(st.integers(2, n), st.integers(max(2, n // 2), n)))
+    cls = draw(st.sampled_from(["unit", "cart", "cart", "cyl"]))
+    per = draw(st.booleans())
+    if cls == "unit":
+        gspec = {"cls": "unit", "shape": [n], "periodic": [per]}
+        chunks = [c]
+    elif cls == "cart":
+        lo = draw(st.sampled_from([0.0, -1.0, 2.5]))
+        gspec = {"cls": "cart", "shape": [n, 2], "bounds": [[lo, lo + draw(st.sampled_from([1.0, 3.0, 0.7]))], [0.0, 1.0]],
+                 "periodic": [per, False]}
+        chunks = [c, draw(st.sampled_from([1, 1, 2]))]
+    else:  # the axial direction of a full cylinder
+        gspec = {"cls": "cyl", "shape": [2, n], "radius": [0.0, 1.5], "bounds_z": [-1.0, 2.0], "periodic": [False, per]}
+        chunks = [1, c]
+    return {"grid": gspec, "chunks": chunks, "format": draw(st.sampled_from(["list", "tuple", "npint"]))}
+
+
 def make_mesh(case):
     grid = build_grid(case["grid"])
     obj, fmt = render_decomposition(case["chunks"], case.get("format", "list"))
@@ -737,6 +759,9 @@ RULE_NT = ("non-trivial = uneven chunk sizes, or a single-cell chunk, or >= 2 sp
 SUBCHECKS = [
     SubCheck("tiling", strategy=mesh_cases, check=check_tiling, mode="pure",
              budget={"quick": 3000, "thorough": 40000}, shards={"quick": 3, "thorough": 8}, rule=RULE_NT),
+    SubCheck("tiling_long_axis", strategy=long_axis_cases, check=check_tiling, mode="pure",
+             budget={"quick": 1500, "thorough": 30000}, shards={"quick": 2, "thorough": 8},
+             rule="9..200 cells along one axis cut into 2..cells chunks; " + RULE_NT),
     SubCheck("split_combine", strategy=field_cases, check=check_split_combine, mode="pure",
              budget={"quick": 2400, "thorough": 40000}, shards={"quick": 3, "thorough": 8}, rule=RULE_NT),
     SubCheck("neighbours", strategy=lambda: mesh_cases(max_total=256, max_nodes=128), check=check_neighbours,
